@@ -304,7 +304,7 @@ func genC09(g *Gen) {
 	item := func(s []byte, f, t int) []interface{} { return []interface{}{bytesJ(s), f, t} }
 	// Cmp / Len: groups of related bit strings; all pairs of the group
 	for c := 0; c < g.N(700, 25000); c++ {
-		n := []int{0, 1, 2, 3, 6, 7, 8, 9, 10, 15, 16, 17, 20, 31, 32, 33, 48}[r.Intn(17)]
+		n := []int{0, 1, 2, 3, 6, 7, 8, 9, 10, 15, 16, 17, 20, 31, 32, 33, 48, 63, 64, 65, 127, 128, 129}[r.Intn(23)]
 		base := bsString(r, n)
 		var items [][]interface{}
 		add := func(s []byte, f, t int) {
@@ -374,7 +374,7 @@ func genC09(g *Gen) {
 	}
 	// CmpUpto / StrCmpUpto: plain strings shorter, equal, one byte longer, much longer; garbage in the masked-out bits
 	for c := 0; c < g.N(1500, 60000); c++ {
-		n := []int{0, 1, 2, 3, 5, 6, 7, 8, 9, 10, 11, 15, 16, 17, 24, 31, 32, 33, 47}[r.Intn(19)]
+		n := []int{0, 1, 2, 3, 5, 6, 7, 8, 9, 10, 11, 15, 16, 17, 24, 31, 32, 33, 47, 63, 64, 65, 127, 128, 129}[r.Intn(25)]
 		s := bsString(r, n)
 		t := r.Intn(8*n + 1)
 		if r.Intn(4) == 0 {
